@@ -9,7 +9,7 @@ export CARGO_NET_OFFLINE=true
 git checkout -q -- . 2>/dev/null; git clean -qfd -e SEED -e target >/dev/null 2>&1
 git apply SEED/patch.diff || { echo '{"error":"patch does not apply"}'; exit 2; }
 git apply SEED/demo.diff || { echo '{"error":"demo does not apply"}'; exit 2; }
-skip="--skip _with_rpc --skip get_token_accounts_by_owner --skip send_request --skip test_parse_url_or_path"
+skip="${DEMO_SKIP:+--skip $DEMO_SKIP} --skip _with_rpc --skip get_token_accounts_by_owner --skip send_request --skip test_parse_url_or_path"
 cargo test --offline -j 8 -p "$crate" --lib -- $skip > SEED/.with_existing.log 2>&1; e1=$?
 cargo test --offline -j 8 -p "$crate" "$@" > SEED/.with_demo.log 2>&1; d1=$?
 git apply -R SEED/patch.diff
